@@ -1,5 +1,6 @@
 """Anchors and helpers shared by the rule modules (names of the repo's entities live here, once)."""
 import os
+import re
 from sa import ir, cfg
 from sa.callgraph import CallGraph, tree_effects, lvalue_root, ASSIGN_OPS
 from sa.ir import fmt, walk, short
@@ -112,6 +113,29 @@ def literal_value(n):
     if isinstance(n, dict) and n.get("k") == "cast":
         return literal_value(n["e"])
     return None
+
+
+def named_constant(prog, n, scope):
+    """value of a static constant data member named through a dependent expression (`iterator::first_index` inside a class
+    template): all static const members of that name in classes under `scope` carry the same literal initialiser"""
+    n = ir.unwrap(n)
+    if not isinstance(n, dict):
+        return None
+    name = None
+    if n.get("k") == "member" and (n.get("field") or "").startswith("?::"):
+        name = n["field"][3:]
+    elif n.get("k") in ("ref", "dep_ref") and n.get("dep"):
+        name = short(str(n.get("decl") or n.get("name") or "").split(":")[-1])
+    if not name:
+        return None
+    vals = set()
+    for cn, c in prog.classes.items():
+        if not cn.startswith(scope):
+            continue
+        for fl in c.get("fields", []):
+            if fl.get("name") == name and fl.get("static") and (fl.get("type") or "").startswith(("const ", "constexpr ")):
+                vals.add(const_int(fl.get("init")) if fl.get("init") is not None else None)
+    return vals.pop() if len(vals) == 1 else None
 
 
 def const_int(n, depth=0):
@@ -583,3 +607,32 @@ def rule_handlers(ctx, rule, scope, errors, what, minimum=1):
         hs = handlers_of(g) if g is not None else []
         got = handler_outcomes(g, hs[0][0], hs[0][1]) if hs else {"normal": [], "rethrow": [], "raise": []}
         ctx.fixture(rule, nm, bool(got[want]) and (want == "normal" or not got["normal"]), True, "handler outcome `%s` recognised" % want)
+
+
+def rule_no_move_from_member(ctx, rule, scope, what, minimum=1):
+    """G-member-move: a member function that can be called again on the same object (anything but constructors, the destructor, move
+    assignment and &&-qualified members) does not hand one of the object's own data members to std::move: the second call would find it emptied."""
+    prog = ctx.prog
+    nf = 0
+    seen = set()
+    for f in sorted(prog.fns.values(), key=lambda g: g.id):
+        if not f.has_cfg or not f.file.startswith("/repo/") or not f.cls or not scope(f):
+            continue
+        if f.kind in ("ctor", "dtor") or f.flags.get("move_assign") or f.flags.get("rvalue_ref_qualified") or (f.id.rstrip().endswith("&&")):
+            continue
+        key = (f.file, f.line)
+        if key in seen:
+            continue
+        seen.add(key)
+        nf += 1
+        for bid, i, e in f.roots():
+            for n in walk(e["expr"]):
+                if n.get("k") == "call" and (n.get("name") or "") == "std::move" and len(n.get("args", [])) == 1:
+                    a = ir.unwrap(n["args"][0])
+                    if isinstance(a, dict) and a.get("k") == "member" and not a.get("method") and isinstance(ir.unwrap(a.get("base")), dict) and ir.unwrap(a["base"]).get("k") == "this":
+                        t = (a.get("type") or "")
+                        if t.rstrip().endswith("*") or re.fullmatch(r"(unsigned |signed )?(int|long|short|char|bool|std::size_t|size_t)", t.strip()):
+                            continue  # moving a scalar is a copy
+                        ctx.bad(rule, f, "member-moved-out:%s:%s" % (short(f.qual), short(a.get("field") or "?")),
+                                "%s hands its own member %s to std::move and can be called again on the same object: %s" % (short(f.qual), short(a.get("field") or "?"), what), (f, n.get("ln")))
+    ctx.need(rule, "re-callable member functions scanned for moved-out members", nf, minimum)
